@@ -143,6 +143,7 @@ pub struct Env {
     pub cfg: Config,
     pub store: OnceLock<Weak<TStore>>,
     pub prefix: String,
+    pub epoch: u64,
     /// free mode: answers of "*" middleware entries come from here
     pub rng: Mutex<u64>,
 }
@@ -153,6 +154,7 @@ impl Env {
             cfg,
             store: OnceLock::new(),
             prefix: prefix.to_string(),
+            epoch: sched().epoch(),
             rng: Mutex::new(seed | 1),
         })
     }
@@ -174,8 +176,10 @@ impl Env {
         x
     }
     fn cb(&self, what: &str, who: &str, st: Value, a: i64, effs: Value) -> String {
+
         let d = json!({"what": what, "who": who, "st": st, "a": a, "rd": self.rd(), "effs": effs});
-        sched().point(Class::Gate, "cb", d)
+        // a thread of an earlier run that is still winding down is ignored (epoch)
+        sched().point_of(Some(self.epoch), Class::Gate, "cb", d)
     }
 }
 
@@ -557,8 +561,9 @@ pub fn run_op(sh: &Arc<Shared>, o: &OpDesc) -> Value {
                 let envc = env.clone();
                 let id = o.s.clone();
                 store.subscribe_with_selector(KindSel { env: env.clone() }, move |v: i64, a: Act| {
+
                     let d = json!({"what": "change", "who": id, "st": [], "a": a.id, "rd": envc.rd(), "effs": [], "val": v});
-                    sched().point(Class::Gate, "cb", d);
+                    sched().point_of(Some(envc.epoch), Class::Gate, "cb", d);
                 })
             } else {
                 store.add_subscriber(Arc::new(SSubscriber {
